@@ -64,7 +64,7 @@ def stepBA (s : State) (n : Nat) (op : List String) (ans : List String) : State 
   | [o, xs] =>
     match sel? xs with
     | some x =>
-      if o == "setall" then mutArr s x (setAll (s.arr x)) ans o
+      if o == "setall" then mutArr s x (setAll n (s.arr x)) ans o
       else if o == "clrall" then mutArr s x (clearAll (s.arr x)) ans o
       else if o == "empty" then (s, expect o [bit (empty (s.arr x))] ans)
       else if o == "andeq" then mutArr s x (andAssign (s.arr x) (s.arr (1 - x))) ans o
